@@ -1352,7 +1352,10 @@ fn run_scenario(cfg: &SyncCfg, ha: &[WOp], hb: &[WOp], limit: usize) -> ScenResu
         // combinations must have been saturated (>= SAT_MIN equal-state runs, none new in the last SAT_QUIET)
         let fin_exact = fin_seen.values().all(|(w, s)| s.len() >= *w);
         let fin_saturated = any_truncating && equal_runs >= SAT_MIN && equal_runs - last_new_combo_at >= SAT_QUIET;
-        if attempts >= SYNC_MIN_ATTEMPTS && init_seen.len() >= want_init && (fin_exact || fin_saturated) {
+        // with truncation and several keys per bucket, intermediate digests (of unequal states that
+        // differ only in unhashed components) also depend on coinciding orders: a floor of repetitions
+        let floor = if truncating && (once.fin.0.iter().chain(once.fin.1.iter()).any(|(_, ks)| ks.len() > 1)) { SAT_MIN + SAT_QUIET } else { SYNC_MIN_ATTEMPTS };
+        if attempts >= floor && init_seen.len() >= want_init && (fin_exact || fin_saturated) {
             covered = true;
             by_saturation = !fin_exact;
             break;
@@ -1849,6 +1852,7 @@ fn main() {
         "std::collections::HashMap with RandomState: iteration order of an instance is a function of its hasher keys and its insert/remove history; all orders are reachable by creating fresh instances (measured, see iteration_orders)".to_string(),
         "state equality = equality of canonical content (type, value, tombstone, LWW stamp, hash fields with stamps, expiry, stamp, vector clock, replication factor); merge(a,b) and merge(b,a) are both accepted as 'the merge' of two prior values".to_string(),
         "values: histories of <= 2 real write operations per key on replicas 1 and 2 plus one merge step; counters/sets CRDT types, vector clocks (causal mode) and per-key replication factors are not generated".to_string(),
+        "sync order enumeration: initial iteration-order combinations are covered exactly; final per-bucket order combinations of equal final states are covered exactly when max_keys_per_sync cannot truncate; when it truncates, the selected keys correlate with the orders, the reachable set is not known a priori, and a scenario is closed once >= 48 equal-state runs showed no new combination during the last 24 (count reported); per-scenario counts can therefore vary minimally between runs, signatures do not".to_string(),
         "sync: two nodes, SET / SET EX / DEL on 3 keys, no gossip, no concurrent writes during the sync rounds; only the replicated state (not the executor keyspace) is compared".to_string(),
     ];
     rep.finish(coverage, assumptions);
